@@ -9,7 +9,7 @@ import (
 type Pred interface{ isPred() }
 
 type Operand struct {
-	Col string // column name when IsCol
+	Col   string // column name when IsCol
 	IsCol bool
 	Lit   any // literal value otherwise
 }
@@ -39,6 +39,13 @@ type Between struct {
 	Lo, Hi any
 	Neg    bool
 }
+
+// BetweenCols is a range check whose bounds are columns (x.price BETWEEN y.lo AND y.hi).
+type BetweenCols struct {
+	Col, Lo, Hi string
+	Neg         bool
+}
+
 type Like struct {
 	Col     string
 	Pattern string
@@ -55,16 +62,17 @@ type IsBool struct {
 }
 type True struct{} // the constant predicate `true = true`, rarely used
 
-func (Cmp) isPred()     {}
-func (And) isPred()     {}
-func (Or) isPred()      {}
-func (Not) isPred()     {}
-func (In) isPred()      {}
-func (InSub) isPred()   {}
-func (Between) isPred() {}
-func (Like) isPred()    {}
-func (IsNull) isPred()  {}
-func (IsBool) isPred()  {}
+func (Cmp) isPred()         {}
+func (And) isPred()         {}
+func (Or) isPred()          {}
+func (Not) isPred()         {}
+func (In) isPred()          {}
+func (InSub) isPred()       {}
+func (Between) isPred()     {}
+func (BetweenCols) isPred() {}
+func (Like) isPred()        {}
+func (IsNull) isPred()      {}
+func (IsBool) isPred()      {}
 
 // RenderOpts control the SQL text of a predicate / query.
 type RenderOpts struct {
@@ -191,6 +199,13 @@ func RenderPred(p Pred, o RenderOpts) string {
 		}
 		o.feat("between")
 		return o.Col(t.Col) + " BETWEEN " + o.Lit(t.Lo) + " AND " + o.Lit(t.Hi)
+	case BetweenCols:
+		o.feat("between.cols")
+		not := ""
+		if t.Neg {
+			not = "NOT "
+		}
+		return o.Col(t.Col) + " " + not + "BETWEEN " + o.Col(t.Lo) + " AND " + o.Col(t.Hi)
 	case Like:
 		if t.Neg {
 			o.feat("notlike")
